@@ -526,6 +526,12 @@ where
             writeln!(body, "\nendobj")?;
         }
 
+        // the new revision starts on a line of its own: a file may end right behind `%%EOF`, and an object
+        // header on that line would be part of the comment for every reader that scans the file
+        if !matches!(self.backend.last(), Some(b'\n') | Some(b'\r')) {
+            self.backend.push(b'\n');
+        }
+
         // offsets are relative to the header
         let body_pos = self.backend.len() - self.start_offset;
         for (id, gen, pos) in written {
@@ -551,7 +557,7 @@ where
 
         let _ = self.fulfill(xref_promise, stream)?;
 
-        write!(self.backend, "\nstartxref\n{}\n%%EOF", xref_pos).unwrap();
+        write!(self.backend, "\nstartxref\n{}\n%%EOF\n", xref_pos).unwrap();
 
         // everything pending is part of the file now
         self.changes.clear();
